@@ -149,6 +149,7 @@ func sigListP(name string, s [3][]byte) param {
 	}
 	big := make([]byte, 4096)
 	copy(big, s[0])
+	s012 := append(append(append([]byte{}, s[0]...), s[1]...), s[2]...)
 	return param{Name: name, Base: 4, Vals: []val{
 		{C: "nil", V: [][]byte(nil)},
 		{C: "empty", V: [][]byte{}},
@@ -164,6 +165,11 @@ func sigListP(name string, s [3][]byte) param {
 		{C: "[s,ff(48B),s]", V: [][]byte{s[0], ff, s[2]}},
 		{C: "[s,s,4KiB]", V: [][]byte{s[0], s[1], big}, Rej: true},
 		{C: "[96B,s]", V: [][]byte{append(append([]byte{}, s[0]...), s[1]...), s[2]}, Rej: true},
+		// wrong lengths that COMPENSATE each other, cut from the stream s0||s1||s2 (a flattened list re-cuts into valid signatures)
+		{C: "[47B|49B|s of s0s1s2]", V: [][]byte{s012[:47], s012[47:96], s[2]}, Rej: true},
+		{C: "[49B|48B|47B of s0s1s2]", V: [][]byte{s012[:49], s012[49:97], s012[97:]}, Rej: true},
+		{C: "[96B,0B,s]", V: [][]byte{s012[:96], {}, s[2]}, Rej: true},
+		{C: "[0B,s,96B]", V: [][]byte{{}, s[0], s012[48:]}, Rej: true},
 		// well-formed SPECIAL values: the identity signature (alone, repeated, mixed) and the same
 		// signature many times - valid inputs that an "ignore the neutral element" or "deduplicate"
 		// shortcut may turn into an empty or shorter internal list
@@ -527,6 +533,7 @@ func buildTable(x *fx) []*fn {
 		}
 		return false
 	}
+	s01 := append(append([]byte{}, sh[0]...), sh[1]...)
 	add(&fn{Name: "BLSReconstructThresholdSignature", Covers: []string{"crypto.BLSReconstructThresholdSignature"},
 		Params: []param{intP("size", 3, sizeVals...), intP("threshold", 1, minI64, -1, 0, 1, 2, 3, 253, 254, 255, 256, p31),
 			listP("shares", 4, val{C: "nil", V: [][]byte(nil)}, val{C: "empty", V: [][]byte{}}, val{C: "[nil,nil]", V: [][]byte{nil, nil}},
@@ -534,7 +541,10 @@ func buildTable(x *fx) []*fn {
 				val{C: "[s0,s1,s2]", V: [][]byte{sh[0], sh[1], sh[2]}}, val{C: "[s0,empty]", V: [][]byte{sh[0], {}}}, val{C: "[s0,1B]", V: [][]byte{sh[0], sh[1][:1]}},
 				val{C: "[s0,47B]", V: [][]byte{sh[0], sh[1][:47]}}, val{C: "[s0,49B]", V: [][]byte{sh[0], append(append([]byte{}, sh[1]...), 0)}},
 				val{C: "[s0,ff(48B)]", V: [][]byte{sh[0], ff48}}, val{C: "[s0,4KiB]", V: [][]byte{sh[0], big}}, val{C: "[47B,49B]", V: [][]byte{sh[0][:47], append([]byte{1}, sh[1]...)}},
-				val{C: "[s x254]", V: many}),
+				val{C: "[s x254]", V: many},
+				// wrong lengths that COMPENSATE each other, cut from the stream s0||s1 (the flattened list re-cuts into the valid shares)
+				val{C: "[47B|49B of s0s1]", V: [][]byte{s01[:47], s01[47:]}}, val{C: "[49B|47B of s0s1]", V: [][]byte{s01[:49], s01[49:]}},
+				val{C: "[96B,0B]", V: [][]byte{s01, {}}}, val{C: "[0B,96B]", V: [][]byte{{}, s01}}),
 			listP("signers", 2, val{C: "nil", V: []int(nil)}, val{C: "empty", V: []int{}}, val{C: "[0,1]", V: []int{0, 1}}, val{C: "[1,0]", V: []int{1, 0}},
 				val{C: "[0]", V: []int{0}}, val{C: "[0,0]", V: []int{0, 0}}, val{C: "[0,-1]", V: []int{0, -1}}, val{C: "[0,3]", V: []int{0, 3}}, val{C: "[0,255]", V: []int{0, 255}},
 				val{C: "[0,256]", V: []int{0, 256}}, val{C: "[0,257]", V: []int{0, 257}}, val{C: "[-2^63,2^31]", V: []int{minI64, p31}}, val{C: "[0,1,2]", V: []int{0, 1, 2}},
